@@ -49,6 +49,7 @@ def reads(field):
 
 def run(R):
     farthest_refresh_rule(R)
+    setter_and_restore_rules(R)
     F = R.F
     store_rules(R, "C10")
     # (2) eviction decision
@@ -333,3 +334,46 @@ def farthest_refresh_rule(R):
         return
     R.must_pass("C10.remove.farthest", rm, [("farthest_record = calculate_farthest()", CallSink(NRS + "::calculate_farthest"))], from_blocks=tuple(d for _, d in acc),
                 descr="removing the farthest record recomputes farthest_record")
+
+
+def setter_and_restore_rules(R):
+    """(a) set_responsible_distance_range stores the range it is given (clean-up and the quoted in-range count use the *current*
+    responsible range); (b) with_config always recomputes farthest_record from the recovered index; (c) restore_quoting_metrics
+    answers a file that opens and decodes with its contents — no other reason to start the payment count afresh."""
+    from rules import PL
+    F = R.F
+    sr = R.body("C10.range.set", NRS + "::set_responsible_distance_range")
+    if sr is not None:
+        prep(sr)
+        calls = [c["ncallee"] for c in sr.calls if not c.get("mac")]
+        ws = [st for blk in sr.blocks for st in blk["stmts"] if len(st["d"]) > 1 and st["d"][-1] == ".responsible_distance_range"]
+        param = Taint(sr).closure(PL(sr, 1))
+        somes = {st["d"][0]: st["rv"] for blk in sr.blocks for st in blk["stmts"] if st["rv"]["k"] == "agg" and st["rv"].get("variant") == "Some" and len(st["d"]) == 1}
+
+        def some_of_param(st):
+            rv = st["rv"]
+            if rv["k"] == "use" and rv["a"][0] in ("cp", "mv") and len(rv["a"][1]) == 1 and rv["a"][1][0] in somes:
+                rv = somes[rv["a"][1][0]]
+            return rv["k"] == "agg" and rv.get("variant") == "Some" and op_local(rv["ops"][0]) in param
+        ok = bool(ws) and not calls and all(some_of_param(st) for st in ws)
+        if not ok:
+            R.viol("C10.range.set", "range-not-stored", "set_responsible_distance_range does not store exactly the range it is given (%s)" % (calls[:2] or "assignment changed"), sr, sr.lines[0])
+        R.inst("C10.range.set", "K6 flows-to", "responsible_distance_range = Some(the new range)", len(ws), ok)
+    wc = R.body("C10.restore.farthest", WITHCFG)
+    if wc is not None:
+        R.must_pass("C10.restore.farthest", wc, [("farthest_record = calculate_farthest()", CallSink(NRS + "::calculate_farthest"))],
+                    descr="with_config recomputes farthest_record from the recovered index on every path")
+    rq = R.body("C10.restore.complete", NRS + "::restore_quoting_metrics")
+    if rq is not None:
+        prep(rq)
+        g = cfg_of(rq)
+        rejects = set()
+        for gd in (CallGuard(["std::fs::File::open"], ("Ok",), "the file opens"), CallGuard(["rmp_serde::decode::from_read"], ("Ok",), "the file decodes")):
+            rejects |= gd.edges(rq)[2]
+        live = g.reach((0,), cut=rejects)
+        nones = [b for b in AggSink("core::option::Option", "None").blocks(rq) if b in live]
+        somes_ = [b for b in AggSink("core::option::Option", "Some").blocks(rq) if b in live]
+        okr = bool(somes_) and not nones
+        if not okr:
+            R.viol("C10.restore.complete", "metrics-discarded", "restore_quoting_metrics can answer None for a file that opens and decodes: the received-payment count is reset on that restart", rq, rq.lines[0])
+        R.inst("C10.restore.complete", "K4 gate (must-reach)", "a historic metrics file that opens and decodes is restored", len(somes_), okr)
